@@ -71,6 +71,14 @@ func clientLeaves(kind string, n, p int, useOnet bool) scenario {
 	return b.sc
 }
 
+// the client leaves after p values and the service stays silent: it must be told
+// to stop although it neither emits nor ends (no clean-up)
+func clientLeavesIdle(kind string, p int) scenario {
+	b := newB("client-"+kind+"-idle", 1, 1).open(0, 0).lock(0, 0, 1, p).add(op{S: 0, K: kind})
+	b.sc.Cleanup = false
+	return b.sc
+}
+
 // valid follow-up at position p answered on the SAME service channel
 func followShared(n, p int, useOnet bool) scenario {
 	b := newB("follow-shared", 1, 1).open(0, 0).lock(0, 0, 1, p).
@@ -245,6 +253,7 @@ func corpus() []interface{} {
 		plain(3, true),
 		clientLeaves("close", 5, 2, true),
 		clientLeaves("drop", 5, 2, false),
+		clientLeavesIdle("drop", 1),
 		followShared(4, 2, true),
 	}
 }
@@ -289,6 +298,14 @@ func genAll(rng *rand.Rand, tier string) []interface{} {
 		}
 	}
 	add(badFirst())
+	for i, p := range []int{0, 1, 2, 7} {
+		if quick && i >= 2 {
+			add(clientLeavesIdle([]string{"close", "drop"}[i%2], p))
+			continue
+		}
+		add(clientLeavesIdle("close", p))
+		add(clientLeavesIdle("drop", p))
+	}
 	for i := 0; i < 3 || (!quick && i < 20); i++ {
 		add(followSharedBurst(1+rng.Intn(2), 3+rng.Intn(3)))
 	}
